@@ -10,12 +10,18 @@ for d in sorted(glob.glob(os.path.join(V, "seeded", "C*-*"))):
     summ = (m.get("summary") or "").replace("|", "/").replace("\n", " ")
     summ = summ[:150] + ("..." if len(summ) > 150 else "")
     verdict = "reported" if rules else "**not reported**"
-    rows.append(f"| {m['seed']} | `{m.get('file','?')}` {m.get('function') or ''} | {summ} | {verdict}: {', '.join(rules) if rules else (m.get('note') or '')} | `{first[:90]}` |")
+    atd = m.get("at_delivery", "reported")
+    rnd = m.get("round", "1")
+    note = (m.get("note") or "").replace("|", "/")
+    rows.append(f"| {m['seed']} | {rnd} | `{m.get('file','?')}` {m.get('function') or ''} | {summ} | {atd} | {verdict}: {', '.join(rules) if rules else ''} {('(' + note + ')') if note else ''} | `{first[:90]}` |")
 hdr = ("### 8.4 Seeded defects (written by sub-agents that saw only a property's text) and the checks that catch them\n\n"
        "Each row is one change kept under `/verif/seeded/<id>/` after I confirmed it myself in a scratch worktree of /repo HEAD: the demonstration passes on the clean tree and fails\n"
        "with the patch, and the existing suite passes with the patch (apart from the four tests that need network access, which fail on the unchanged tree as well).\n"
-       "`meta.json` records what was run.  'reported' = the property's quick check exits 1 on /repo + patch and names the rule(s) shown.\n\n"
-       "| seed | where | what it does | verdict of the checks | first report |\n|---|---|---|---|---|\n")
+       "`meta.json` records what was run.  'reported' = the property's quick check exits 1 on /repo + patch and names the rule(s) shown.\n"
+       "Round 1 (ids 1-3 per property): one agent per property.  Round 2 (ids 4-6, twelve properties, run after 18 h of strengthening, agents told to avoid round-1 sites): "
+       "column `at delivery` is the verdict of the checks AS THEY WERE when the seed arrived -- `missed` seeds are the ones that drove the rules named in the note; "
+       "`not-decided` seeds are still not reported (value-level questions outside static reach, recorded honestly).\n\n"
+       "| seed | round | where | what it does | at delivery | verdict of the checks now | first report |\n|---|---|---|---|---|---|---|\n")
 txt = hdr + "\n".join(rows) + "\n"
 p = os.path.join(V, "DESIGN.md")
 s = open(p).read()
